@@ -34,7 +34,9 @@ Judge(ev) ==
          LET m == Parse(ev.toks)
          IN  IF ev.panic THEN {<<"C02", "NoCrash">>}
              ELSE IF ev.hang THEN {<<"C02", "Terminates">>}
-             ELSE (IF (m.phase = "ok") # ev.ok THEN {<<"C02", "ParserAcceptsWhatTheModelAccepts">>} ELSE {})
+             \* accept / refuse agreement with the transcribed machine is CONFORMANCE, not a listed property (C02 allows
+             \* either answer on malformed text; well-formed writer output is judged by the RoundTrip events): a note
+             ELSE (IF (m.phase = "ok") # ev.ok THEN {<<"GROWTH", "G_ParserAcceptsWhatTheModelAccepts">>} ELSE {})
                   \cup (IF m.phase = "ok" /\ ev.ok /\ ~SameTree(m.N, ev.tree) THEN {<<"C01", "ParserBuildsTheModelTree">>} ELSE {})
                   \cup (IF ev.ok /\ ev.postcrash THEN {<<"C02", "DeliveredTreeUsable">>} ELSE {})
     [] ev.kind = "RoundTrip" ->
@@ -51,7 +53,7 @@ Init == l = 1 /\ nfail = 0
 TraceStep ==
   /\ l <= Len(Trace) /\ l' = l + 1
   /\ LET ev == Trace[l]
-         f  == {x \in Judge(ev) : x[1] \in PROPS}
+         f  == {x \in Judge(ev) : x[1] \in PROPS \cup {"GROWTH"}}
      IN  /\ \A x \in f : Rep(x[1], x[2], ev, ev.cls)
          /\ nfail' = nfail + Cardinality(f)
 Spec == Init /\ [][TraceStep]_vars
